@@ -179,6 +179,13 @@ fn gen_slots(r: &mut Rng, max_slots: usize, b: &mut Builder, self_cluster: u32, 
                 slots.push(mk(&n, 0x10, c, 0, r));
                 prev_short = Some(n);
             }
+            5 if r.chance(1, 3) => {
+                // a directory entry whose start cluster is nonsense (reserved, out of range, free)
+                let n = random_short_name(r);
+                let bogus = *r.pick(&[1u32, b.g.clusters + 2, b.g.clusters + 500, 0xFFF7, 0x0FFF_FFF7, 0x0FFF_FFFF, 0xFFFF_FFFF, 3000]);
+                slots.push(mk(&n, 0x10, bogus, 0, r));
+                prev_short = Some(n);
+            }
             4 if !slots.is_empty() && r.chance(1, 3) => {
                 // an end marker in the middle, followed by whatever comes next (must not be listed)
                 slots.push([0u8; 32]);
@@ -553,7 +560,8 @@ pub fn dir_eval(prop: &'static str, case: &DirCase) -> CaseOutcome {
                                 let _ = fs.close_dir(sub, 0);
                             }
                             Ok(Err(e)) => {
-                                if f.is_dir() && err_name(&e) != "TooManyOpenDirs" {
+                                // an entry that designates no cluster of the volume cannot be opened: refusing is right
+                                if f.is_dir() && err_name(&e) != "TooManyOpenDirs" && (f.cluster == 0 || g.valid_cluster(f.cluster)) {
                                     push("C06", "open-dir-refused", err_name(&e), fatspec::name_str(&f.name));
                                 }
                             }
@@ -595,6 +603,28 @@ pub fn dir_eval(prop: &'static str, case: &DirCase) -> CaseOutcome {
                         }
                     }
                 }
+            }
+        }
+    }
+    // ---- C17 ("arbitrary directory bytes never crash a listing"): list every directory an entry designates
+    if prop == "C17" {
+        for de in listing.iter() {
+            if !de.attributes.is_directory() || de.attributes.is_volume() {
+                continue;
+            }
+            let r = guarded!(fs.open_dir(dir, &Name::Sfn(de.name.clone()), 0));
+            match r {
+                Ok(Ok(sub)) => {
+                    let mut buf = [0u8; 64];
+                    let lr = guarded!(fs.iterate_lfn(sub, &mut buf, 0, &mut |_, _| {}));
+                    if lr.is_err() {
+                        push("C17", "listing-panic", &format!("designated-directory:{}", crate::last_panic_location()), format!("listing the directory designated by entry {:?} (cluster {:?}) panicked", format!("{}", de.name), de.cluster));
+                    }
+                    probes.hit("designated_directory_listed");
+                    let _ = fs.close_dir(sub, 0);
+                }
+                Ok(Err(_)) => {}
+                Err(_) => push("C17", "listing-panic", &format!("open_dir:{}", crate::last_panic_location()), String::new()),
             }
         }
     }
